@@ -42,6 +42,22 @@ using Tins::Memory::OutputMemoryStream;
 
 namespace Tins {
 
+namespace {
+
+// PAD and END are single byte options: they carry neither a length field nor data
+bool is_single_byte_option(const DHCP::option& opt) {
+    return opt.option() == DHCP::PAD || opt.option() == DHCP::END;
+}
+
+uint32_t serialized_option_size(const DHCP::option& opt) {
+    if (is_single_byte_option(opt)) {
+        return sizeof(uint8_t);
+    }
+    return static_cast<uint32_t>(opt.data_size() + (sizeof(uint8_t) << 1));
+}
+
+} // anonymous namespace
+
 PDU::metadata DHCP::extract_metadata(const uint8_t* /*buffer*/, uint32_t total_sz) {
     if (TINS_UNLIKELY(total_sz < sizeof(bootp_header))) {
         throw malformed_packet();
@@ -89,7 +105,7 @@ void DHCP::add_option(const option& opt) {
 }
 
 void DHCP::internal_add_option(const option& opt) {
-    size_ += static_cast<uint32_t>(opt.data_size() + (sizeof(uint8_t) << 1));
+    size_ += serialized_option_size(opt);
 }
 
 bool DHCP::remove_option(OptionTypes type) {
@@ -97,7 +113,7 @@ bool DHCP::remove_option(OptionTypes type) {
     if (iter == options_.end()) {
         return false;
     }
-    size_ -= static_cast<uint32_t>(iter->data_size() + (sizeof(uint8_t) << 1));
+    size_ -= serialized_option_size(*iter);
     options_.erase(iter);
     return true;
 }
@@ -250,6 +266,9 @@ void DHCP::write_serialization(uint8_t* buffer, uint32_t total_sz) {
         stream.write(Endian::host_to_be<uint32_t>(0x63825363));
         for (options_type::const_iterator it = options_.begin(); it != options_.end(); ++it) {
             stream.write(it->option());
+            if (is_single_byte_option(*it)) {
+                continue;
+            }
             stream.write<uint8_t>(it->length_field());
             stream.write(it->data_ptr(), it->data_size());
         }
